@@ -1,4 +1,4 @@
 SPECIFICATION Spec
-CONSTANTS MaxOps = 6 MaxNp = 2 MaxNd = 1 Bug = "none" ZoomAuto = FALSE
+CONSTANTS MaxOps = 5 MaxNp = 2 MaxNd = 1 Bug = "none" ZoomAuto = FALSE
 INVARIANTS InvValid InvReads InvSetter InvErr InvSetUp
 CHECK_DEADLOCK FALSE
